@@ -13,6 +13,7 @@ from .core import Prop, cq_N, cq_Z, cq_bool, cq_list, cq_opt, cq_pair, Machinery
 
 OPS = {"ci": 4, "ca": 5, "gi": 6, "gd": 7, "gs": 8, "hr": 9}
 KINDS = {"c": 0, "g": 1, "h": 2}
+MOPS = {4: "IncrementCounter", 5: "SetCounter", 6: "IncrementGauge", 7: "DecrementGauge", 8: "SetGauge", 9: "RecordHistogram"}
 UNITS = ["-", "bytes", "seconds", "count", "milliseconds", "count_per_second"]
 
 
@@ -88,12 +89,14 @@ class C11(Prop):
                  threads=[["a", ["hr", "gd"], [], 4, 4]], pad=0, sndbuf=0),
             dict(limit=2, inj=["s1", "b", "s2", "b"], pre=["c.m0.-.a", "g.m1.-.b", "h.m2.-.c"], mid=[], clients=["F", "R", "F"],
                  threads=[["a", ["ci"], [], 5, 5], ["b", ["gs"], [], 5, 5]], pad=0, sndbuf=0),
+            dict(limit=0, inj=[], pre=["c.m0.bytes.hello", "g.m0.seconds.again"], mid=["h.m0.-.third"], clients=["F", "L"],
+                 threads=[["a", ["ci", "hr"], [["k", "v"], ["a", ""]], 3, 3]], pad=0, sndbuf=0),
         ]
         for c in fixed[:n]:
             cases.append(c)
         while len(cases) < n:
             r = rng.fork()
-            limit = r.weighted([(2, None), (2, 1), (2, 2), (1, 3), (2, 8), (3, 64), (3, 1024)])
+            limit = r.weighted([(2, None), (1, 0), (2, 1), (2, 2), (1, 3), (2, 8), (3, 64), (3, 1024)])
             stall = r.chance(1, 5)
             ncl = r.range(1, 4)
             clients = []
@@ -108,7 +111,8 @@ class C11(Prop):
 
             def desc():
                 nm = r.pick(names)
-                return "%s.%s.%s.%s" % (kind_of[nm], nm, r.pick(UNITS), r.pick(["", "d", "some-text", "x" * r.range(1, 20)]))
+                kind = kind_of[nm] if not r.chance(1, 5) else r.pick("cgh")   # now and then re-described with another type
+                return "%s.%s.%s.%s" % (kind, nm, r.pick(UNITS), r.pick(["", "d", "some-text", "x" * r.range(1, 20)]))
             pre = [desc() for _ in range(r.weighted([(2, 0), (3, 1), (3, 2), (2, 4)]))]
             mid = [desc() for _ in range(r.weighted([(5, 0), (3, 1), (2, 2)]))]
             nth = r.range(1, 3)
@@ -190,7 +194,7 @@ class C11(Prop):
                 continue
             if k == "WB":
                 close()
-                cur = ["W", [], [], {}, []]
+                cur = ["W", [], [], {}, [], []]
                 continue
             if k == "T":
                 close()
@@ -203,6 +207,9 @@ class C11(Prop):
                 continue
             if k == "M":
                 cur[1].append((p[1], int(p[2]), None if p[3] == "-" else p[3][1:], p[4]))
+            elif k == "K":
+                labels = [tuple(kv.split("=")) for kv in p[2].split(",") if kv]
+                cur[5].append((p[1], labels, int(p[3]), int(p[4])))
             elif k == "B":
                 cur[2] = [x for x in p[1].split(",") if x]
             elif k == "F":
@@ -262,13 +269,15 @@ class C11(Prop):
         evs = []
         for e in events:
             if e[0] == "A":
-                evs.append("EAccept %s" % cq_list([hxs(x) for x in e[1]]))
+                evs.append("CAccept %s" % cq_list([hxs(x) for x in e[1]]))
             elif e[0] == "T":
-                evs.append("EWritable %s %s" % (cq_N(e[1]), cq_list(e[2])))
+                evs.append("CWritable %s %s" % (cq_N(e[1]), cq_list(e[2])))
             else:
                 metas = ["(%s, %s, %s, %s)" % (hxs(n), cq_N(ty), cq_opt(hxs(u) if u is not None else None), hxs(d)) for n, ty, u, d in e[1]]
                 ws = ["(%s, %s)" % (cq_N(t), cq_list(e[3][t])) for t in e[4]]
-                evs.append("EWake %s %s %s" % (cq_list(metas), cq_list([hxs(f) for f in e[2]]), cq_list(ws)))
+                items = ["(mkItem %s %s (%s %s))" % (hxs(n), cq_list(["(%s, %s)" % (hxs(k), hxs(v)) for k, v in labs]), MOPS[op], cq_N(val))
+                         for n, labs, op, val in e[5]]
+                evs.append("CWake %s %s %s %s" % (cq_list(metas), cq_list(items), cq_list([hxs(f) for f in e[2]]), cq_list(ws)))
         cl = []
         for (k, port, _h) in o["clients"]:
             late = k == "L"
